@@ -13,6 +13,7 @@ import GocoinV.Proofs.C04Final
 import GocoinV.Proofs.C04Cost
 import GocoinV.Proofs.C04Wf
 import GocoinV.Proofs.C04Equiv
+import GocoinV.Proofs.C04Config
 namespace GocoinV.Props.C04
 open GocoinV GocoinV.Connect GocoinV.Proofs.C04
 open GocoinV.Spec.Connect (connectBlock connectTxs addOuts absList absGet isOk failsWith subsidy seqLockOk Coin)
@@ -415,5 +416,123 @@ theorem coinbase_script_length_checked_before (db : DB) (b : Block) (cb : Tx) (s
   cbScriptLen_subsumed db b cb s hc hcb
 
 example : isOk (checkTransaction Cfg.current (W.cbTx 50)) = true ∧ (W.cbTx 50).isCoinBase = true := by decide
+
+/-! ### configurations of the client: the pool hook, the undo files, compressed records
+
+  Three mechanisms that sit between commitTxs and the observable set, each with ONE structural fact of the source that
+  decides whether the property survives it. The facts are regenerated from /repo on every run (go/cmd/gen_c04 →
+  Gen/C04Facts.lean: `txTrustedPerTx`, `undoWrittenWheneverCollected`, `undoMissingPanics`, `scratchUnderLock`); the
+  theorems below are about the models instantiated with them and stop checking when a fact changes; the harness
+  (pool.go, walk.go, compr.go) searches the real code for a failing input in the same configurations. -/
+
+/-- **Pool hook.** With `chain.TrustedTxChecker` installed (`connectT`, Model/ConnectTrust.lean: a transaction the hook
+    vouches for gets no script verification; everything else is evaluated for it as for any other) and an HONEST hook —
+    it vouches only for transactions all of whose script verdicts are true, `hhonest` — the conclusion of
+    `connect_sound` holds unchanged: in particular every input script of the connected block verifies.  The proof needs
+    the flag to be a variable of the loop body (`Gen.C04Facts.txTrustedPerTx = true`): one vouched transaction must
+    not switch verification off for the transactions after it. -/
+theorem connect_sound_pool_hook (chk : TxChecker) (db : DB) (b : Block) (db' : DB) (so : Nat) (mtpOf : Nat → Nat)
+    (hhonest : ∀ tx ∈ b.txs.tail, chk.says tx = true → ∀ i ∈ tx.ins, i.scriptOk = true)
+    (hwf : WF db)
+    (hinj : ((b.txs.map (·.txid)).map key8).Nodup)
+    (hbip30 : ∀ tx ∈ b.txs, ∀ kr ∈ db, key8 kr.2.txid ≠ key8 tx.txid)
+    (hseq : b.csv = true → ∀ tx ∈ b.txs, 2 ≤ tx.version → ∀ i ∈ tx.ins, ∀ c : Coin,
+        (absGet mtpOf db i.prev = some c ∨ (absGet mtpOf db i.prev = none ∧ c.height = b.height ∧ c.mtpPrev = b.mtp)) → seqLockOk b.height b.mtp i c = true)
+    (hret : ∀ tx ∈ b.txs, txCountsAgree tx = true)
+    (hheights : ∀ kr ∈ db, kr.2.height ≤ b.height) (hb : b.height < 2 ^ 32)
+    (hmtp : mtpOf b.height = b.mtp)
+    (hsize : ∀ tx ∈ b.txs, tx.noWitSize * 4 < 2 ^ 32)
+    (hbytes : blockScriptBytes b ≤ 4000000)
+    (h : connectT Cfg.current chk db b = .ok (db', so)) :
+    ∃ u', connectBlock (absList mtpOf db) b = .ok u' ∧ (∀ op, aGet u' op = absGet mtpOf db' op)
+      ∧ ∃ cb rest r, b.txs = cb :: rest
+          ∧ connectTxs b rest ⟨addOuts (absList mtpOf db) cb.txid b true cb.outs 0, 0, 0⟩ = .ok r
+          ∧ so = 4 * cbScriptSigOps cb + 4 * cbOutputSigOps cb + r.sigops
+          ∧ so ≤ 80000 := by
+  have hfact : Gen.C04Facts.txTrustedPerTx = true := by decide
+  unfold connectT at h
+  rw [hfact, effBlock_honest chk b hhonest] at h
+  exact connect_sound db b db' so mtpOf hwf hinj hbip30 hseq hret hheights hb hmtp hsize hbytes h
+
+/-- non-vacuity: the pool knows the (valid) transaction of `W.blockOk`; the hook is honest and the block is connected -/
+example : (∀ tx ∈ W.blockOk.txs.tail, W.poolKnowsT1.says tx = true → ∀ i ∈ tx.ins, i.scriptOk = true)
+    ∧ isOk (connectT Cfg.current W.poolKnowsT1 W.db0 W.blockOk) = true := by
+  refine ⟨by decide, by decide⟩
+
+/-- Without the hook (`TrustedTxChecker == nil`, plain library use) `connectT` IS `connect`. -/
+theorem no_hook_is_connect (db : DB) (b : Block) : connectT Cfg.current none db b = connect Cfg.current db b := by
+  unfold connectT; rw [effBlock_none]
+
+/-- Why the flag must live inside the loop: `W.blockPoolBad` = [coinbase, T1, T2], the pool knows T1 (valid), T2 spends
+    T1's output with a script that FAILS. With a per-transaction flag the code refuses the block for its scripts, as the
+    specification does; with the flag declared once before the loop (`effBlock false`) the code connects it. -/
+theorem pool_flag_must_be_per_transaction_counterexample :
+    failsWith (connect Cfg.current W.db0 (effBlock true W.poolKnowsT1 W.blockPoolBad)) Err.scripts = true
+    ∧ isOk (connect Cfg.current W.db0 (effBlock false W.poolKnowsT1 W.blockPoolBad)) = true
+    ∧ failsWith (connectBlock (absList W.mtp0 W.db0) W.blockPoolBad) .script = true := by
+  refine ⟨by decide, by decide, by decide⟩
+
+/-- **Undo files.** Whatever undo/ held before (`dir` is arbitrary — a file written at this height by a block of another
+    branch included), after CommitBlockTxs has run for a block at height `h` whose undo data were collected
+    (`some recs`, possibly EMPTY), UndoBlockTxs at height `h` reads back exactly `recs`.  Needs
+    `undoWrittenWheneverCollected` (the file is replaced even when there is nothing to undo). -/
+theorem undo_reads_what_this_block_wrote (dir : UndoDir) (h : Nat) (recs : List Rec) :
+    readUndo UndoCfg.current (writeUndo UndoCfg.current dir h (some recs)) h = some recs := by
+  have hc : UndoCfg.current = ⟨true, true⟩ := by decide
+  rw [hc]; exact readUndo_writeUndo dir h recs
+
+/-- Hence undoing a block that spent no confirmed output puts NOTHING back into the set, whatever is lying in undo/:
+    the result is the set without the records of the block's own transactions. -/
+theorem undo_of_empty_block_adds_nothing_back (db : DB) (dir : UndoDir) (h : Nat) (txids : List Bytes) :
+    undoBlockTxs UndoCfg.current db (writeUndo UndoCfg.current dir h (some [])) h txids
+      = some (txids.foldl (fun d t => aDel d (key8 t)) db) := by
+  unfold undoBlockTxs
+  rw [undo_reads_what_this_block_wrote]
+  rfl
+
+/-- and a height for which no file exists stops the undo (panic) instead of being taken for "nothing to add back" -/
+theorem undo_without_file_stops (db : DB) (dir : UndoDir) (h : Nat) (txids : List Bytes) (hm : aGet dir h = none) :
+    undoBlockTxs UndoCfg.current db dir h txids = none := by
+  have hc : UndoCfg.current = ⟨true, true⟩ := by decide
+  unfold undoBlockTxs
+  rw [hc, readUndo_missing dir h hm]
+
+example : aGet ([] : UndoDir) 7 = none := rfl
+
+/-- Why both facts are needed: with "no file for an empty undo map" + "a missing file means nothing to add back"
+    (`⟨false, false⟩`) the undo of an empty block at height 151 replays the file a block of an abandoned branch left
+    there and the coin (h1,0) — spent by an ancestor that is still connected — is back in the set. -/
+theorem undo_stale_file_counterexample :
+    let stale : UndoDir := [(151, [{ txid := W.h1, height := 150, coinbase := false, outs := [some ⟨1000, [0x51]⟩] }])]
+    ∃ db', undoBlockTxs ⟨false, false⟩ [] (writeUndo ⟨false, false⟩ stale 151 (some [])) 151 [W.idOf 0xc0] = some db'
+      ∧ unspentGet Cfg.current db' ⟨W.h1, 0⟩ ≠ none
+      ∧ undoBlockTxs UndoCfg.current [] (writeUndo UndoCfg.current stale 151 (some [])) 151 [W.idOf 0xc0] = some [] := by
+  refine ⟨_, rfl, by decide, by decide⟩
+
+/-- **Compressed records.** SerializeC fills the shared pools in one pass and reads them back in a second one. With the
+    mutex held over both passes (`Gen.C04Facts.scratchUnderLock`) the schedules of two concurrent serializations A and B
+    that the source permits are the two sequential ones, and under each of them both records come out exact — whatever
+    the pools held before (`pool` arbitrary, long enough: the allocation at the top of SerializeC). -/
+theorem compressed_serializations_exact {α β : Type} (f : α → β) (d : β) (A B : List (Option α)) (pool : List β)
+    (hA : A.length ≤ pool.length) (hB : B.length ≤ pool.length) (sched : List Scratch.Step)
+    (hs : Scratch.permitted Gen.C04Facts.scratchUnderLock sched = true) :
+    (Scratch.run f d A B pool sched).outA = Scratch.expected f A 0
+    ∧ (Scratch.run f d A B pool sched).outB = Scratch.expected f B 0 := by
+  have hfact : Gen.C04Facts.scratchUnderLock = true := by decide
+  rw [hfact] at hs
+  simp only [Scratch.permitted, ↓reduceIte, Bool.or_eq_true, decide_eq_true_eq] at hs
+  rcases hs with e | e <;> subst e
+  · exact run_seq_ab f d A B pool hA hB
+  · exact run_seq_ba f d A B pool hA hB
+
+example : Scratch.permitted Gen.C04Facts.scratchUnderLock [.a1, .a2, .b1, .b2] = true := by decide
+
+/-- Why the lock must cover both passes: interleave pass 1 of B between the passes of A and record A comes out with
+    B's amount at the common output index (50 BTC instead of 1 BTC — money from nowhere in the set). -/
+theorem compressed_interleaving_counterexample :
+    Scratch.permitted false [.a1, .b1, .a2, .b2] = true
+    ∧ (Scratch.run (fun v : Nat => v) 0 [some 100000000] [some 5000000000] [0] [.a1, .b1, .a2, .b2]).outA = [(0, 5000000000)]
+    ∧ Scratch.expected (fun v : Nat => v) [some 100000000] 0 = [(0, 100000000)] := by
+  refine ⟨by decide, by decide, by decide⟩
 
 end GocoinV.Props.C04
